@@ -1,6 +1,8 @@
 package parse
 
 import (
+	"strconv"
+	"math"
 	"reflect"
 
 	"github.com/vimeo/dials/zzverif"
@@ -94,4 +96,45 @@ func HarnessC15FloatBoundaries() {
 		zzverif.Assert((err == nil) == p.fits64, "C15 complex128: a part outside the float64 range was accepted or one inside rejected: "+p.lit)
 	}
 	zzverif.Reached("c15-float-end")
+}
+
+// HarnessC15FloatValues: canonical text of float and complex values (what strconv prints) parses
+// back to exactly that value: infinities, extremes, denormals, values that are not exactly
+// representable in the narrower width.
+func HarnessC15FloatValues() {
+	f64 := []float64{math.Inf(1), math.Inf(-1), math.MaxFloat64, -math.MaxFloat64, math.SmallestNonzeroFloat64, 0.1, 1e300, -0.0, 123456789.125}
+	f32 := []float32{float32(math.Inf(1)), float32(math.Inf(-1)), math.MaxFloat32, -math.MaxFloat32, math.SmallestNonzeroFloat32, 0.1, 16777217, 1.5}
+	switch zzverif.Choose("type", 4) {
+	case 0:
+		v := f64[zzverif.Choose("v", len(f64))]
+		got, err := String(strconv.FormatFloat(v, 'g', -1, 64), reflect.TypeOf(float64(0)))
+		zzverif.Assert(err == nil, "C15 float64: the canonical text of a value was rejected")
+		if err == nil {
+			zzverif.Assert(reflect.Indirect(got).Float() == v, "C15 float64: parsing the canonical text did not return exactly the value")
+		}
+	case 1:
+		v := f32[zzverif.Choose("v", len(f32))]
+		got, err := String(strconv.FormatFloat(float64(v), 'g', -1, 32), reflect.TypeOf(float32(0)))
+		zzverif.Assert(err == nil, "C15 float32: the canonical text of a value (infinities included) was rejected")
+		if err == nil {
+			zzverif.Assert(float32(reflect.Indirect(got).Float()) == v, "C15 float32: parsing the canonical text did not return exactly the value")
+		}
+	case 2:
+		re, im := f64[zzverif.Choose("re", len(f64))], f64[zzverif.Choose("im", 4)]
+		v := complex(re, im)
+		got, err := String(strconv.FormatComplex(v, 'g', -1, 128), reflect.TypeOf(complex128(0)))
+		zzverif.Assert(err == nil, "C15 complex128: the canonical text of a value was rejected")
+		if err == nil {
+			zzverif.Assert(reflect.Indirect(got).Complex() == v, "C15 complex128: parsing the canonical text did not return exactly the value (parts rounded to a narrower width?)")
+		}
+	case 3:
+		re, im := f32[zzverif.Choose("re", len(f32))], f32[zzverif.Choose("im", 4)]
+		v := complex(re, im)
+		got, err := String(strconv.FormatComplex(complex128(v), 'g', -1, 64), reflect.TypeOf(complex64(0)))
+		zzverif.Assert(err == nil, "C15 complex64: the canonical text of a value was rejected")
+		if err == nil {
+			zzverif.Assert(complex64(reflect.Indirect(got).Complex()) == v, "C15 complex64: parsing the canonical text did not return exactly the value")
+		}
+	}
+	zzverif.Reached("c15-floatvalues-end")
 }
